@@ -113,18 +113,24 @@ def readLoop : List Str → Option Nat → Except Exn (Option Nat)
 def readStatus (reply : Str) : Except Exn (Option Nat) := readLoop (completeLines reply) none
 
 /-- the CONNECT request `_tunnel` writes. -/
+def crlf : Str := ['\r', '\n']
+
+/-- `auth_str` of `_tunnel`, when credentials are sent at all (`if auth and auth[0]`). -/
+def authStr? (auth : Option (Str × Str)) : Option Str :=
+  match auth with
+  | some (user, pass) =>
+    if user.isEmpty then none
+    else some (if pass.isEmpty then user else user ++ ':' :: pass)
+  | none => none
+
 def tunnelRequest (host : Str) (port : Nat) (auth : Option (Str × Str)) : Str :=
   let hp := host ++ ':' :: natStr port
-  let l0 := "CONNECT ".toList ++ hp ++ " HTTP/1.1\r\n".toList
-  let l1 := "Host: ".toList ++ hp ++ "\r\n".toList
-  let l2 := match auth with
-    | some (user, pass) =>
-      if user.isEmpty then []                                  -- `if auth and auth[0]`
-      else
-        let authStr := if pass.isEmpty then user else user ++ ':' :: pass
-        "Proxy-Authorization: Basic ".toList ++ B64.encode (B64.asciiBytes authStr) ++ "\r\n".toList
+  let l0 := "CONNECT ".toList ++ hp ++ " HTTP/1.1".toList ++ crlf
+  let l1 := "Host: ".toList ++ hp ++ crlf
+  let l2 := match authStr? auth with
+    | some s => "Proxy-Authorization: Basic ".toList ++ B64.encode (B64.asciiBytes s) ++ crlf
     | none => []
-  l0 ++ l1 ++ l2 ++ "\r\n".toList
+  l0 ++ l1 ++ l2 ++ crlf
 
 /-- `_tunnel`: every failure of `read_headers` and every status other than 200 is PROXY. -/
 def tunnel (reply : Str) : Except Exn Unit :=
